@@ -660,6 +660,8 @@ class Emit:
             return '(%s + (%s))' % (base, s.gep_off(v[1], v[3]))
         if k == 'cast':
             _, op, ft, fv, tt = v
+            if op == 'ptrtoint' and fv[0] == 'ref' and fv[1][0] == '@' and (fv[1] in s.m.funcs or fv[1] in s.m.decls):
+                return s.mask('((%s)%dULL)' % (ctype(tt), s.func_id(fv[1])), tt.n)
             return s.cast(op, ft, s.val(fv, ft), tt)
         if k == 'binop':
             _, op, at, a, b, fl = v
@@ -669,6 +671,14 @@ class Emit:
                 return '((%s){%s})' % (ctype(t), ', '.join(s.val(ev, et) for et, ev in v[1]))
             return '((%s){{%s}})' % (ctype(t), ', '.join(s.val(ev, et) for et, ev in v[1]))
         raise ValueError('val %r' % (v,))
+
+    def func_id(s, name):
+        """integer identity of a function whose address is converted to an integer (pointers to member functions store it as i64):
+        a fixed even constant, mapped back to the function by vp_func_from_id (emitted into the same C file)"""
+        if not hasattr(s, 'fids'): s.fids = {}
+        if name not in s.fids: s.fids[name] = 0x7E0000000000 + 16 * (len(s.fids) + 1)
+        s.extern_used.add(name)
+        return s.fids[name]
 
     def typeinfo(s, e):
         if e not in s.typeids: s.typeids[e] = len(s.typeids) + 1
@@ -1301,7 +1311,10 @@ class Emit:
                 stubs.append('%s %s(%s) { VP_CHECK(0, "env.unmodelled_external:%s"); __CPROVER_assume(0);%s }' % (ctype(ft.ret), fn, ps, fn[2:], zr))
             else:
                 ext.append((n, '%s %s(%s);' % (ctype(ft.ret), fn, ', '.join(ctype(t) for t in ft.args) + (', ...' if ft.var and ft.args else '') or 'void')))
-        tid = ['uint32_t vp_typeid_for(uint8_t* ti) {'] + ['  if (ti == %s) return %d;' % (e, k) for e, k in s.typeids.items()] + ['  return 0; }']
+        fids = getattr(s, 'fids', {})
+        ftab = ['uint8_t* vp_func_from_id(uint64_t x) {'] + ['  if (x == %dULL) return (uint8_t*)&%s;' % (i, s.fname(n)) for n, i in fids.items()] + ['  return 0; }',
+                'uint64_t vp_func_to_id(uint8_t* p) {'] + ['  if (p == (uint8_t*)&%s) return %dULL;' % (s.fname(n), i) for n, i in fids.items()] + ['  return 0; }']
+        tid = ftab + ['uint32_t vp_typeid_for(uint8_t* ti) {'] + ['  if (ti == %s) return %d;' % (e, k) for e, k in s.typeids.items()] + ['  return 0; }']
         hdr = ['#include "vp_rt.h"']
         hdr += [d[1] for d in AGG_DECLS.values()]
         nd = ['%s nondet_%s(void);' % (d[0], d[0]) for d in AGG_DECLS.values()]
